@@ -113,8 +113,9 @@ inductive Ev where
   | fattr (r : Nat) (name : Name)     -- Functions.__getattr__
   | fcall (r : Nat) (args : Name)     -- ServerFunction.__call__ (argument ids/literals, joined)
   | rget (r : Nat) (decodes : Bool)     -- ServerFunctionResult.__getitem__ → open_dods_url: GET .dods; when the answer
-                                        -- decodes (webob transport) also GET .das and cache the dataset; with a requests
-                                        -- session `r.body` raises AttributeError right after the first GET
+                                        -- decodes (both transports since fix b7d1390; before it a requests session raised
+                                        -- AttributeError on `r.body` right after the first GET) also GET .das and cache
+                                        -- the dataset; `false`: the first answer does not decode, nothing is cached
   | vget (r : Nat) (idx : List Idx)     -- BaseType.__getitem__ with an index: copy + `self.data[index]`
   | ggrid (r : Nat) (key : List Idx)    -- GridType.__getitem__ with a non-string key (output_grid on or off)
 deriving DecidableEq, Repr, Inhabited
